@@ -25,10 +25,25 @@ fn esc(s: &str) -> String {
     s.chars().map(|c| if c == ' ' || c == '/' || c == '\\' { format!("\\{c}") } else { c.to_string() }).collect()
 }
 
-/// kinds: 0 empty corpus, 1 single class (no word boundary), 2 untagged, 3 partially tagged, 4 partially annotated, 5 tagged with ambiguity
+/// kinds: 0 empty corpus, 1 single class (no word boundary), 2 untagged, 3 partially tagged, 4 partially annotated, 5 tagged with ambiguity,
+/// 6 tokens with more than eight tag classes
 fn corpus(r: &mut Rng, kind: usize, n_sent: usize, vocab: &[String]) -> Vec<(char, String)> {
     let mut out = vec![];
     if kind == 0 {
+        return out;
+    }
+    if kind == 6 {
+        // many tag classes: one token with two ambiguous categories of 5 and 4 candidates (9 classes, more than the fixed vector
+        // length), annotated with both tags in some sentences and with the first only in others; a second token with 3 + 7
+        let many = [("A", 5usize, "B", 4usize), ("C", 3, "D", 7)];
+        for k in 0..(n_sent.max(4) * 3) {
+            let (c1, n1, c2, n2) = many[k % 2];
+            let t = &vocab[k % 2 % vocab.len()];
+            let ctx = if r.chance(1, 2) { r.pick(vocab).clone() } else { word(r, 1, 2) };
+            let both = k % 3 != 2;
+            let tag = if both { format!("/{c1}{}/{c2}{}", k % n1, (k / 2) % n2) } else { format!("/{c1}{}", (k + 1) % n1) };
+            out.push(('t', format!("{} {}{tag} {}", esc(&ctx), esc(t), esc(&ctx))));
+        }
         return out;
     }
     for _ in 0..n_sent {
@@ -131,7 +146,7 @@ pub fn gen(out: &mut dyn Write, family: &str, thorough: bool, seed: u64) {
             (r.below(5) as u8, r.below(5) as u8, r.below(5) as u8, r.below(5) as u8)
         };
         let kind = match family {
-            "C11" => i % 6,
+            "C11" => i % 7,
             "C12" => [5, 3, 5, 4][i % 4],
             _ => [2, 4, 5, 3][i % 4],
         };
@@ -199,6 +214,12 @@ pub fn gen(out: &mut dyn Write, family: &str, thorough: bool, seed: u64) {
             for (pre, post) in [("c", "d"), ("d", "c"), ("c", "c"), ("d", "d")] {
                 for amb in [x, z] {
                     lines.push(format!("{pre}/S a/S {}/{} {post}/S", esc(amb), esc(first)));
+                    // occurrences WITHOUT a tag (between tagged tokens) in front of tagged ones, in the other context: they are no
+                    // examples for the classifier, and must not shift which features the following examples are trained with
+                    if i % 2 == 1 {
+                        lines.push(format!("{pre}/S a/S {} {post}/S", esc(amb)));
+                        lines.push(format!("{post}/S a/S {} {pre}/S", esc(amb)));
+                    }
                     lines.push(format!("{pre}/S b/S {}/{} {post}/S", esc(amb), esc(second)));
                     if three {
                         lines.push(format!("{pre}/S e/S {}/{} {post}/S", esc(amb), esc(third)));
